@@ -163,7 +163,7 @@ func ruleBinPairsBAI(c *Ctx, r *Rep, tier string) {
 			if x.Op == token.LEQ {
 				hasLEQ = true
 			}
-			if x.Op == token.SUB && x.X == ssa.Value(ofn.Params[1]) {
+			if x.Op == token.SUB && clampOf(x.X, ofn.Params[1], ofn.Params[0], 0) {
 				if k, ok := constInt(x.Y); ok && k == 1 {
 					usesEndM1 = true
 				}
@@ -191,7 +191,7 @@ func ruleBinPairsBAI(c *Ctx, r *Rep, tier string) {
 		allInstrs(ofn, func(ins ssa.Instruction) {
 			if p, ok := ins.(*ssa.Phi); ok {
 				for _, e := range p.Edges {
-					if k := norm(symKey(e)); k == "(($0>>E.shift)+E.offset)" || k == "(E.offset+($0>>E.shift))" {
+					if x, ok := walkBound(e, norm); ok && clampOf(x, ofn.Params[0], nil, 0) {
 						kPhi, okInit = p, true
 					}
 				}
@@ -208,8 +208,14 @@ func ruleBinPairsBAI(c *Ctx, r *Rep, tier string) {
 			allInstrs(ofn, func(ins ssa.Instruction) {
 				switch x := ins.(type) {
 				case *ssa.If:
-					if bo, ok := x.Cond.(*ssa.BinOp); ok && bo.Op == token.LEQ && bo.X == ssa.Value(kPhi) && (norm(symKey(bo.Y)) == "((($1-1)>>E.shift)+E.offset)" || norm(symKey(bo.Y)) == "(E.offset+(($1-1)>>E.shift))") {
-						okCond = true
+					if bo, ok := x.Cond.(*ssa.BinOp); ok && bo.Op == token.LEQ && bo.X == ssa.Value(kPhi) {
+						if xv, ok := walkBound(bo.Y, norm); ok {
+							if sub, isSub := xv.(*ssa.BinOp); isSub && sub.Op == token.SUB && clampOf(sub.X, ofn.Params[1], ofn.Params[0], 0) {
+								if k, isK := constInt(sub.Y); isK && k == 1 {
+									okCond = true
+								}
+							}
+						}
 					}
 				case *ssa.Call:
 					if cc, ok := isBuiltinCall(x, "append"); ok && len(cc.Args) == 2 && strings.Contains(symKey(cc.Args[1]), symKey(kPhi)) {
@@ -246,6 +252,60 @@ func ruleBinPairsBAI(c *Ctx, r *Rep, tier string) {
 	r.Check(tw == 1<<14, rule, "internal.TileWidth", "internal/index.go", "16 KiB = 1 << finest-level shift", fmt.Sprintf("TileWidth = %d, must be 1<<14", tw))
 	sd, _ := constant.Int64Val(pkgConst(c, "internal", "StatsDummyBin"))
 	r.Check(sd == 37450, rule, "internal.StatsDummyBin", "internal/index.go", "37450", fmt.Sprintf("StatsDummyBin = %d, specification 37450", sd))
+}
+
+// walkBound: v is E.offset + (X >> E.shift) (either order, through
+// conversions), E the row of the level table; X is returned.
+func walkBound(v ssa.Value, norm func(string) string) (ssa.Value, bool) {
+	bo, ok := stripConv(v).(*ssa.BinOp)
+	if !ok || bo.Op != token.ADD {
+		return nil, false
+	}
+	for _, pair := range [][2]ssa.Value{{bo.X, bo.Y}, {bo.Y, bo.X}} {
+		if norm(symKey(pair[0])) != "E.offset" {
+			continue
+		}
+		sh, ok := stripConv(pair[1]).(*ssa.BinOp)
+		if ok && sh.Op == token.SHR && norm(symKey(sh.Y)) == "E.shift" {
+			return sh.X, true
+		}
+	}
+	return nil, false
+}
+
+// clampOf: v is the parameter p, possibly after clamps – a φ whose edges are p
+// (clamped again), constants or, when other is given, clamps of that parameter
+// ("if end < beg { end = beg }").
+func clampOf(v ssa.Value, p, other *ssa.Parameter, depth int) bool {
+	if v == ssa.Value(p) {
+		return true
+	}
+	if args, isMin := minArgs(v); isMin && depth <= 5 {
+		// min(end, limit): a clamp from above
+		for _, a := range args {
+			if clampOf(a, p, other, depth+1) {
+				return true
+			}
+		}
+		return false
+	}
+	ph, ok := v.(*ssa.Phi)
+	if !ok || depth > 5 {
+		return false
+	}
+	fromP := false
+	for _, e := range ph.Edges {
+		switch {
+		case clampOf(e, p, other, depth+1):
+			fromP = true
+		case other != nil && clampOf(e, other, nil, depth+1):
+		default:
+			if _, isK := e.(*ssa.Const); !isK {
+				return false
+			}
+		}
+	}
+	return fromP
 }
 
 // csiPairs interprets fn (reg2bin / reg2bins) for one geometry and records
